@@ -1361,6 +1361,24 @@ def run(chk):
         if not ok:
             chk.violation(r_ijk, "inverse:" + q, "%s splits a global index g into (i, j, k) = (%s, %s, %s); under the natural ordering it is (g mod nx, (g div nx) mod ny, g div (nx ny))%s: the cell it names is not the one the index belongs to" % (q, sy.show_term(got[0]), sy.show_term(got[1]), sy.show_term(got[2]), ", one-based" if base1 else ""), f["file"], f["l"])
 
+    # ---- C13.zsign: the orientation of ZCORN is decided the same way where it is checked and where it is repaired
+    r_zs = chk.rule("C13.zsign", "ZcornMapper::validZCORN and ZcornMapper::fixupZCORN derive the direction in which depth grows with K from the same expression - the first node of the top layer against the matching bottom node of the last layer, a tie counting as 'increasing' (`<=`): with a strict `<` in one of them a grid whose first pillar is pinched out (zero total thickness, legal) is read as upside down, and the repair collapses every cell onto its top", floor=2)
+    zsig = {}
+    for nm_ in ("validZCORN", "fixupZCORN"):
+        zf = [f for f in fx.fns if f["n"] == nm_ and (f.get("cls") or "").endswith("ZcornMapper") and f.get("body")]
+        if len(zf) != 1:
+            raise core.AnalysisBroken("ZcornMapper::%s: %d definitions" % (nm_, len(zf)))
+        zf = zf[0]
+        pz = zf["params"][0]["n"]
+        inits = [show(strip(v["init"])).replace(pz, "Z") for n in stmt_list(zf["body"]) if n["k"] == "Decl" for v in n["vars"] if v["n"] == "sign" and isinstance(v.get("init"), dict)]
+        zsig[nm_] = (inits, zf)
+        chk.instance(r_zs, nm_, sample=dict(sign=inits))
+    WANT_S = "((Z[this.index(0, 0, 0, 0)] <= Z[this.index(0, 0, (this.dims[2] - 1), 4)]) ? 1 : (-1))"
+    for nm_, (inits, zf) in zsig.items():
+        norm_ = [re.sub(r"\(unsigned long\)|\(int\)|\(std::size_t\)|\(size_t\)", "", t_) for t_ in inits]
+        if len(norm_) != 1 or norm_[0].replace(" ", "") not in (WANT_S.replace(" ", ""), WANT_S.replace(" ", "").replace("(-1)", "-1")):
+            chk.violation(r_zs, nm_, "ZcornMapper::%s decides the ZCORN orientation as %s; required: %s (the same in validZCORN and fixupZCORN, ties count as increasing)" % (nm_, norm_, WANT_S), zf["file"], zf["l"])
+
     from verif import fallthrough
     fallthrough.run(chk, "C13", floor=3)
     from verif import argorder
